@@ -144,3 +144,108 @@ def gff3(feats, ids, parents=None):
             attrs += ";Parent=" + ",".join(parents[i])
         lines.append("\t".join([r[0], "src%d" % (i % 2), r[2], str(r[3]), str(r[4]), ".", r[1], ".", attrs]))
     return "\n".join(lines) + "\n"
+
+
+# -- the forms in which merge_criteria may be handed over ---------------------------------------------------------------
+REITERABLE_FORMS = ["list", "tuple", "set"]
+ONE_SHOT_FORMS = ["generator", "iter", "chain"]
+
+
+def criteria_form(rng, desc, one_shot=True):
+    """list | tuple | set | generator | iter | chain | callable (the bare callable, only for a one-element list)"""
+    if len(desc) == 1 and rng.random() < 0.6:
+        return "callable"
+    return rng.choice(REITERABLE_FORMS + (ONE_SHOT_FORMS + ONE_SHOT_FORMS[:1] if one_shot else []))
+
+
+def single_criterion(rng, custom=True):
+    r = rng.random()
+    if r < 0.45:
+        return [rng.choice(SIMPLE)]
+    if r < 0.8 or not custom:
+        return [[rng.choice(THRESHOLDS), rng.randrange(0, 6)]]
+    return [rng.choice([["custom", "start_within", rng.randrange(0, 5)], ["custom", "same_start_parity"],
+                        ["custom", "max_members", rng.randrange(1, 4)], ["custom", "end_not_before_start"],
+                        ["custom", "length_within", rng.randrange(0, 4)]])]
+
+
+# -- shaped runs: a long interval with later, shorter ones inside it ----------------------------------------------------
+def long_run_intervals(rng, n, distinct_starts=False):
+    """A long interval followed by n-1 shorter ones with non-decreasing starts that begin inside it: each one overlaps its
+    predecessor (ending before or after it), touches it, or lies detached beyond it; the last ones may leave the long one.
+    E.g. [1,100] [2,5] [3,10] [50,60]."""
+    s0 = rng.randrange(1, 10)
+    long_end = s0 + rng.choice([15, 30, 60, 100])
+    out = [(s0, long_end)]
+    if not distinct_starts and rng.random() < 0.25:
+        out.append((s0, long_end))
+    s = s0 + (rng.randrange(1, 4) if distinct_starts else rng.randrange(0, 4))
+    while len(out) < n:
+        e = s + rng.choice([0, 1, 3, 3, 7, 12])
+        out.append((s, e))
+        r = rng.random()
+        if r < 0.3:
+            s = s + rng.randrange(1 if distinct_starts else 0, 3)      # overlaps the predecessor
+        elif r < 0.4:
+            s = e + 1                                                  # touches it
+        else:
+            s = e + rng.randrange(2, 14)                               # detached from it
+    return out[:n]
+
+
+def shaped_feats(rng, nmax=8):
+    """Start-ordered rows of the long-run shape; with `foreign` some of the inner rows differ from the long one in seqid,
+    strand or featuretype (they lie inside the run's extent but a label criterion rejects them)."""
+    n = rng.randrange(3, nmax + 1)
+    ivs = long_run_intervals(rng, n)
+    base = [rng.choice(SEQIDS), rng.choice(STRANDS), rng.choice(TYPES)]
+    foreign = rng.random() < 0.5
+    pools = [SEQIDS, STRANDS, TYPES]
+    off = rng.choice([0, 0, 0, 131060, 2 ** 20 - 20])
+    out = []
+    for k, (s, e) in enumerate(ivs):
+        lab = list(base)
+        if foreign and k and rng.random() < 0.35:
+            c = rng.choice([0, 1, 1, 2])
+            lab[c] = rng.choice([v for v in pools[c] if v != base[c]])
+        out.append(lab + [s + off, e + off])
+    return out
+
+
+def shaped_criteria(rng):
+    r = rng.random()
+    if r < 0.4:
+        return list(DEFAULT)
+    if r < 0.55:
+        return ["seqid", "strand", "feature_type", "exact_coordinates_only"]
+    if r < 0.7:
+        return list(DEFAULT) + [rng.choice([["custom", "start_within", rng.randrange(0, 30)], ["custom", "same_start_parity"],
+                                            ["custom", "max_members", rng.randrange(1, 4)],
+                                            ["custom", "length_within", rng.randrange(0, 12)]])]
+    return criteria(rng)
+
+
+def shaped_db_feats(rng):
+    """Rows for merge_all: 1..3 groups of one (seqid, featuretype, strand) each, every group a long-run shape with distinct
+    starts, all groups over the same coordinates (so that the first rows of a group lie inside the extent of the previous
+    group's last run in merge order); file order shuffled.  No two rows tie on the merge order."""
+    labels = []
+    for _ in range(rng.choice([1, 2, 2, 3])):
+        lab = [rng.choice(SEQIDS), rng.choice(STRANDS), rng.choice(TYPES + ["gene"])]
+        if lab not in labels:
+            labels.append(lab)
+    out = []
+    for lab in labels:
+        starts = set()
+        for s, e in long_run_intervals(rng, rng.randrange(1, 7), distinct_starts=True):
+            if s not in starts:
+                starts.add(s)
+                out.append(lab + [s, e])
+    rng.shuffle(out)
+    return out
+
+
+def single_tie_insensitive(rng):
+    """A one-element criteria list whose partition cannot depend on the order of features that tie on the merge order."""
+    return [rng.choice(["seqid", "strand", "feature_type", "overlap_end_inclusive", "overlap_end_inclusive",
+                        ["overlap_end_threshold", rng.randrange(0, 6)], ["overlap_end_threshold", rng.randrange(0, 6)]])]
